@@ -343,9 +343,37 @@ pub fn get_unix_timestamp_ms() -> u64 {
 /// resolution lost when converting the timestamp.
 pub fn get_datacake_timestamp() -> Duration {
     let duration = SystemTime::now().duration_since(UNIX_EPOCH).unwrap();
+    #[cfg(datacake_verif)]
+    let duration = verif::wall_clock(duration);
 
     let (seconds, fractional) = duration_to_parts(duration - DATACAKE_EPOCH);
     parts_as_duration(seconds, fractional)
+}
+
+#[cfg(datacake_verif)]
+/// Verification-only seam (compiled with `--cfg datacake_verif`): lets a harness
+/// decide what the raw wall clock reads on the current thread.
+pub mod verif {
+    use std::cell::Cell;
+    use std::time::Duration;
+
+    thread_local! {
+        static WALL_CLOCK: Cell<Option<Duration>> = Cell::new(None);
+    }
+
+    /// Sets (or clears) the UNIX time the wall clock reports on this thread.
+    pub fn set_wall_clock(unix_time: Option<Duration>) {
+        WALL_CLOCK.with(|v| v.set(unix_time));
+    }
+
+    /// The UNIX time currently injected on this thread, if any.
+    pub fn injected_wall_clock() -> Option<Duration> {
+        WALL_CLOCK.with(|v| v.get())
+    }
+
+    pub(super) fn wall_clock(real: Duration) -> Duration {
+        injected_wall_clock().unwrap_or(real)
+    }
 }
 
 #[cfg(test)]
